@@ -256,7 +256,19 @@ def cell_wf(x):
     return all(cell_wf(y) for y in x)
 
 
-def packed_ok(t, v):
+def pairs_wf(x):
+    """the key/value pairs a packed MODEL is written as: names and values are representable texts; a value may be
+    the empty string (it is the value of a str field, not an element of a list of the instance: the property text
+    excludes blank elements inside lists only)"""
+    return len(x) > 0 and all(isinstance(p, list) and len(p) == 2 and all(isinstance(y, str) and text_ok(y) for y in p)
+                              for p in x)
+
+
+# Which domain packed models have.  True: the property text's (a str field of a packed model may hold "" under a
+# non-blank default — finding packed-model-blank-value-under-nonblank-default).  False: the domain of the theorem on
+# a tree whose join_from_lists drops an empty last element (C08's wfb on the pairs).  Only harness/c07.py switches it,
+# and only to compare the theorem's domain with the oracle's on such a tree.
+def packed_ok(t, v, blank_values=True):
     """the value can be written into ONE cell and read back"""
     k = t[0]
     x = nested_of(t, v)
@@ -264,7 +276,10 @@ def packed_ok(t, v):
         return False
     if k == "list" and v == []:
         return True                   # "" reads back as []
-    if not cell_wf(x):
+    if k == "model" and blank_values:
+        if not pairs_wf(x):
+            return False
+    elif not cell_wf(x):
         return False
     if k == "list":
         # a one-level packed list of lists would read 'a;b' as [[a],[b]]: only via depth 2
@@ -306,8 +321,8 @@ def produces(t, v, comps, T):
     raise ValueError(k)
 
 
-def in_domain(t, v, comps, T):
-    """representable(v) and admissible(v, layout T), for excluded = {}"""
+def in_domain(t, v, comps, T, blank_values=True):
+    """representable(v) and admissible(v, layout T), for excluded = {} (blank_values: see packed_ok)"""
     k = t[0]
     if k == "str":
         return text_ok(v)
@@ -316,11 +331,11 @@ def in_domain(t, v, comps, T):
     if k == "float":
         return True
     if matches(comps, T):
-        return packed_ok(t, v)
+        return packed_ok(t, v, blank_values)
     if k == "list":
         for i, x in enumerate(v):
             c = comps + [str(i + 1)]
-            if produces(t[1], x, c, T) == 0 or not in_domain(t[1], x, c, T):
+            if produces(t[1], x, c, T) == 0 or not in_domain(t[1], x, c, T, blank_values):
                 return False
         return True
     if k == "ulist":
@@ -341,13 +356,13 @@ def in_domain(t, v, comps, T):
                 return False              # the header does not lead back to the field
             c = comps + [h]
             if h == n:
-                if produces(ft, v[n], c, T) == 0 or not in_domain(ft, v[n], c, T):
+                if produces(ft, v[n], c, T) == 0 or not in_domain(ft, v[n], c, T, blank_values):
                     return False
             else:
                 if ft[0] == "str":
                     if not text_ok(v[n]):
                         return False
-                elif ft[0] not in ("int", "float", "bool") and not packed_ok(ft, v[n]):
+                elif ft[0] not in ("int", "float", "bool") and not packed_ok(ft, v[n], blank_values):
                     return False
         return True
     raise ValueError(k)
